@@ -637,14 +637,23 @@ func C16(r *vlib.Run) {
 		cwd := filepath.Join(dir, fmt.Sprintf("cwd%d", i))
 		os.MkdirAll(cwd, 0o755)
 		args := []string{"-r", b.dir, "-o", tout}
+		yamlMethods := i%2 == 1 && len(b.c.args.Methods) > 0 // the documented `methods:` list of trim_config.yaml instead of -m
 		for _, m := range b.c.args.Methods {
-			args = append(args, "-m", m)
+			if !yamlMethods {
+				args = append(args, "-m", m)
+			}
 		}
 		if b.c.args.NoPreserve {
 			args = append(args, "-p", "false")
 		}
-		if len(b.c.args.PreserveNames) > 0 || b.c.args.NoPreserveComment || b.c.args.MatchGoName || len(b.c.args.PreserveFiles) > 0 {
+		if len(b.c.args.PreserveNames) > 0 || b.c.args.NoPreserveComment || b.c.args.MatchGoName || len(b.c.args.PreserveFiles) > 0 || yamlMethods {
 			y := ""
+			if yamlMethods {
+				y += "methods:\n"
+				for _, m := range b.c.args.Methods {
+					y += "  - '" + strings.ReplaceAll(m, "'", "''") + "'\n"
+				}
+			}
 			if b.c.args.MatchGoName {
 				y += "match_go_name: true\n"
 			}
@@ -689,6 +698,9 @@ func C16(r *vlib.Run) {
 				if b.c.args.MatchGoName {
 					r.Sig("binary-agrees-with-library:match_go_name")
 				}
+				if yamlMethods {
+					r.Sig("binary-agrees-with-library:methods-from-config-file")
+				}
 				if len(b.c.args.PreserveFiles) > 0 {
 					r.Sig("binary-agrees-with-library:preserved_files")
 				}
@@ -700,7 +712,7 @@ func C16(r *vlib.Run) {
 	}
 	r.Require("binary-agrees-with-library", "trimmed-set-valid:method-filter", "idempotent:no-filter", "kept:struct:preserved/itself/local:no-filter",
 		"preserved-by:preserved-name", "preserved-by:preserved-go-name", "preserved-by:preserved-file", "method-selected-by-converted-name:main-service",
-		"method-selected-by-converted-name:main-service-with-base", "idempotent:method-filter-go-name", "binary-agrees-with-library:match_go_name", "binary-agrees-with-library:preserved_files")
+		"method-selected-by-converted-name:main-service-with-base", "idempotent:method-filter-go-name", "binary-agrees-with-library:match_go_name", "binary-agrees-with-library:preserved_files", "binary-agrees-with-library:methods-from-config-file")
 	// trim_idl: generated code of the trimmed program compiles and kept types keep their wire behaviour
 	s, err := harness.NewScratch("c16")
 	if err != nil {
